@@ -288,6 +288,17 @@ func c13R3(p *core.Prog, r *core.Report) {
 	}
 	info := syn.Pkg.TypesInfo
 	k := 0
+	enclosingSwitch := map[*ast.CaseClause]*ast.SwitchStmt{}
+	ast.Inspect(syn.Decl.Body, func(n ast.Node) bool {
+		if sw, ok := n.(*ast.SwitchStmt); ok {
+			for _, cl := range sw.Body.List {
+				if cc, ok := cl.(*ast.CaseClause); ok {
+					enclosingSwitch[cc] = sw
+				}
+			}
+		}
+		return true
+	})
 	ast.Inspect(syn.Decl.Body, func(n ast.Node) bool {
 		// the decision is an if statement or a case of a tagless switch
 		var body *ast.BlockStmt
@@ -302,6 +313,13 @@ func c13R3(p *core.Prog, r *core.Report) {
 			hit := false
 			for _, e := range x.List {
 				if mentions(e, "maxDataSize") && isLEQ(e) {
+					hit = true
+				}
+			}
+			if !hit {
+				// the decision may be computed by a helper from the size limit: a case of
+				// `switch decide(maxDataSize, desc)` that carries data (its body stores inline data)
+				if sw := enclosingSwitch[x]; sw != nil && sw.Tag != nil && mentions(sw.Tag, "maxDataSize") && storesNonEmptyData(x.Body) {
 					hit = true
 				}
 			}
@@ -605,4 +623,33 @@ func c13R6(p *core.Prog, r *core.Report) {
 	if n == 0 {
 		r.Held(rule, "mod", "no RegClient.Close in package mod", "", "the collector cannot run between the steps and dagPut")
 	}
+}
+
+// storesNonEmptyData: the statements assign something other than nil / an empty literal to a
+// `.Data` selector (outside function literals).
+func storesNonEmptyData(list []ast.Stmt) bool {
+	found := false
+	for _, st := range list {
+		core.InspectNoLit(st, func(x ast.Node) bool {
+			as, ok := x.(*ast.AssignStmt)
+			if !ok {
+				return true
+			}
+			for i, l := range as.Lhs {
+				se, ok := l.(*ast.SelectorExpr)
+				if !ok || se.Sel.Name != "Data" || i >= len(as.Rhs) {
+					continue
+				}
+				if id, isId := as.Rhs[i].(*ast.Ident); isId && id.Name == "nil" {
+					continue
+				}
+				if cl, isCL := as.Rhs[i].(*ast.CompositeLit); isCL && len(cl.Elts) == 0 {
+					continue
+				}
+				found = true
+			}
+			return true
+		})
+	}
+	return found
 }
